@@ -2,18 +2,19 @@
    and the reward bookkeeping.  Model: model/M_Shares.v (handlerTransferShares transcribed statement by
    statement, with the SDK staking / distribution keepers it drives); proofs: proofs/P_Shares.v.
    Every history starts at genesis (gen_state n), which the correspondence run checks against the real
-   app's genesis stores. *)
+   app's genesis stores.  The model follows /repo as of commit 458669b (sender == recipient refused);
+   nothing below carries a "no self-transfer" guard any more. *)
 From Coq Require Import ZArith List Bool.
 From FxV Require Import lib.Dec model.M_Shares proofs.P_Shares.
 Import ListNotations.
 Open Scope Z_scope.
 
-(* 1. transferShares, sender <> recipient: exactly x shares leave the sender and reach the recipient;
-      validator tokens and total shares, every other delegation, every other validator and all
-      allowances are unchanged; accepted only for 0 < x <= sender's shares, no incoming redelegation. *)
+(* 1. transferShares, accepted: sender <> recipient, exactly x shares leave the sender and reach the
+      recipient; validator tokens and total shares, every other delegation, every other validator and
+      all allowances are unchanged; accepted only for 0 < x <= sender's shares, no incoming redelegation. *)
 Theorem C11_transfer_exact : forall s s' v from to x,
-  from <> to -> exec s (Transfer v from to x) = Ok s' ->
-  exists vs vs', get_val v s = Some vs /\ get_val v s' = Some vs' /\
+  exec s (Transfer v from to x) = Ok s' ->
+  from <> to /\ exists vs vs', get_val v s = Some vs /\ get_val v s' = Some vs' /\
     dget from vs' = dget from vs - dec_of_int x /\
     dget to vs' = dget to vs + dec_of_int x /\
     (forall c, c <> from -> c <> to -> kget c (v_dels vs') = kget c (v_dels vs)) /\
@@ -26,7 +27,8 @@ Print Assumptions C11_transfer_exact.
 
 (* 2. transferFromShares: within the allowance, which drops by exactly x; shares move as in 1. *)
 Theorem C11_transfer_from_exact : forall s s' v spender from to x,
-  from <> to -> exec s (TransferFrom v spender from to x) = Ok s' ->
+  exec s (TransferFrom v spender from to x) = Ok s' ->
+  from <> to /\
   x <= aget (v, from, spender) (s_allow s) /\
   aget (v, from, spender) (s_allow s') = aget (v, from, spender) (s_allow s) - x /\
   (forall k, k <> (v, from, spender) -> aget k (s_allow s') = aget k (s_allow s)) /\
@@ -52,68 +54,58 @@ Theorem C11_approve_exact : forall s s' v owner spender x,
 Proof. exact approve_exact. Qed.
 Print Assumptions C11_approve_exact.
 
-(* 3. "a transfer to oneself changes nothing" is FALSE of the code (finding C11-1): concrete witness,
-      reachable from genesis, replayed on the real precompile by harness/c11 ... *)
-Theorem C11_self_transfer_refuted :
-  exists s', exec wit_pre (Transfer 0 0 0 40) = Ok s' /\
-    val_dget wit_pre 0 0 = dec_of_int (100 * prec) /\
-    val_dget s' 0 0 = dec_of_int (100 * prec) + dec_of_int 40 /\
-    (exists vs, get_val 0 s' = Some vs /\ v_shares vs = dec_of_int (200 * prec) /\
-                dsum (v_dels vs) = dec_of_int (200 * prec) + dec_of_int 40).
-Proof. exact self_transfer_witness. Qed.
-Print Assumptions C11_self_transfer_refuted.
+(* 3. a transfer to oneself changes nothing: it is refused in every state, for every amount *)
+Theorem C11_self_transfer : forall s v a x, step s (Transfer v a a x) = (s, false).
+Proof. exact self_transfer_refused. Qed.
+Print Assumptions C11_self_transfer.
 
-(*    ... and what it does instead, in every state where the call is accepted: the delegation grows by
-      x while the validator's shares and tokens stay (so shares are created out of nothing). *)
-Theorem C11_self_transfer_inflates : forall s s' v a x,
-  exec s (Transfer v a a x) = Ok s' ->
-  exists vs vs', get_val v s = Some vs /\ get_val v s' = Some vs' /\
-    dget a vs' = dget a vs + dec_of_int x /\ v_shares vs' = v_shares vs /\ v_tokens vs' = v_tokens vs /\ 0 < x.
-Proof. exact self_transfer_inflates. Qed.
-Print Assumptions C11_self_transfer_inflates.
+Theorem C11_self_transfer_from : forall s v spender a x, step s (TransferFrom v spender a a x) = (s, false).
+Proof. exact self_transfer_from_refused. Qed.
+Print Assumptions C11_self_transfer_from.
 
-(* 4. after ANY list of operations without a sender == recipient transfer, from genesis: the per-validator
+(*    Documentation of the repaired defect (finding C11-1), about the PRE-FIX function body only
+      (transfer_shares_prefix = handlerTransferShares before commit 458669b, without the guard) — not a
+      statement about the current model: sending oneself 40 shares created 40 shares. *)
+Theorem C11_prefix_self_transfer_witness :
+  exists vs vs', get_val 0 wit_pre = Some vs /\
+    transfer_shares_prefix (s_height wit_pre) false 0 0 40 vs = Ok vs' /\
+    dget 0 vs = dec_of_int (100 * prec) /\
+    dget 0 vs' = dec_of_int (100 * prec) + dec_of_int 40 /\
+    v_shares vs' = dec_of_int (200 * prec) /\
+    dsum (v_dels vs') = dec_of_int (200 * prec) + dec_of_int 40.
+Proof. exact prefix_self_transfer_witness. Qed.
+Print Assumptions C11_prefix_self_transfer_witness.
+
+(* 4. after ANY list of operations (sender == recipient included), from genesis: the per-validator
       invariant (delegations sorted and non-negative and summing to the validator's shares, a starting
       info exactly for every delegation, the reference-count equation, period bounds, tokens >= 0). *)
-Theorem C11_invariant : forall n ops,
-  Forall no_self ops -> Forall VInv (s_vals (run (gen_state n) ops)).
-Proof. intros n ops F. apply (run_inv ops (gen_state n) (gen_state_inv n) F). Qed.
+Theorem C11_invariant : forall n ops, Forall VInv (s_vals (run (gen_state n) ops)).
+Proof. intros n ops. apply (run_inv ops (gen_state n) (gen_state_inv n)). Qed.
 Print Assumptions C11_invariant.
 
 Theorem C11_sum_shares : forall n ops v vs,
-  Forall no_self ops -> get_val v (run (gen_state n) ops) = Some vs -> dsum (v_dels vs) = v_shares vs.
+  get_val v (run (gen_state n) ops) = Some vs -> dsum (v_dels vs) = v_shares vs.
 Proof. exact sum_shares. Qed.
 Print Assumptions C11_sum_shares.
-
-Theorem C11_sum_shares_refuted :
-  exists n ops v vs, get_val v (run (gen_state n) ops) = Some vs /\ dsum (v_dels vs) <> v_shares vs.
-Proof. exact sum_shares_refuted. Qed.
-Print Assumptions C11_sum_shares_refuted.
 
 (* 5. the SDK's reference-count invariant, per validator and period:
       refcount p = #starting infos at p + #slash events at p + [p = current period - 1],
       preserved by every operation including the hand-written edits of handlerTransferShares *)
 Theorem C11_refcount : forall n ops v vs p,
-  Forall no_self ops -> get_val v (run (gen_state n) ops) = Some vs ->
+  get_val v (run (gen_state n) ops) = Some vs ->
   href p vs = cnt_start p (v_start vs) + cnt_slash p (v_slashes vs) + b2z (p =? v_period vs - 1).
 Proof. exact refcount. Qed.
 Print Assumptions C11_refcount.
 
-Theorem C11_refcount_refuted :
-  exists n ops v vs p, get_val v (run (gen_state n) ops) = Some vs /\
-    href p vs <> cnt_start p (v_start vs) + cnt_slash p (v_slashes vs) + b2z (p =? v_period vs - 1).
-Proof. exact refcount_refuted. Qed.
-Print Assumptions C11_refcount_refuted.
-
 Theorem C11_start_iff_delegation : forall n ops v vs a,
-  Forall no_self ops -> get_val v (run (gen_state n) ops) = Some vs ->
+  get_val v (run (gen_state n) ops) = Some vs ->
   khas a (v_dels vs) = khas a (v_start vs).
 Proof. exact start_iff_delegation. Qed.
 Print Assumptions C11_start_iff_delegation.
 
 (* 6. the bookkeeping never blocks a delegator from withdrawing *)
 Theorem C11_withdraw_live : forall n ops v vs a d,
-  Forall no_self ops -> let s := run (gen_state n) ops in
+  let s := run (gen_state n) ops in
   get_val v s = Some vs -> kget a (v_dels vs) = Some d -> 0 < d ->
   snd (step s (Withdraw v a)) = true.
 Proof. exact withdraw_live. Qed.
@@ -122,7 +114,7 @@ Print Assumptions C11_withdraw_live.
 (*    ... nor from undelegating any amount the staking module's own validation accepts (in particular
       everything): neither the distribution bookkeeping nor RemoveDelShares can fail *)
 Theorem C11_undelegate_live : forall n ops v vs a d amt sh,
-  Forall no_self ops -> let s := run (gen_state n) ops in
+  let s := run (gen_state n) ops in
   get_val v s = Some vs -> kget a (v_dels vs) = Some d -> 0 < d ->
   0 < amt -> validate_unbond a amt vs = Ok sh -> ubd_entries a v s < max_entries ->
   snd (step s (Undelegate v a amt)) = true.
@@ -135,8 +127,10 @@ Proof. exact failed_call_no_effect. Qed.
 Print Assumptions C11_failed_call_no_effect.
 
 Theorem C11_nonvacuous :
-  Forall no_self ex_ops /\ all_ok (gen_state 2) ex_ops = true /\
+  all_ok (gen_state 2) ex_ops = true /\
   val_dget (run (gen_state 2) ex_ops) 0 3 = dec_of_int 7 /\
-  aget (0, 1, 2) (s_allow (run (gen_state 2) ex_ops)) = 0.
+  aget (0, 1, 2) (s_allow (run (gen_state 2) ex_ops)) = 0 /\
+  0 < val_dget (run (gen_state 2) ex_ops) 0 1 /\
+  step (run (gen_state 2) ex_ops) (Transfer 0 1 1 1) = (run (gen_state 2) ex_ops, false).
 Proof. exact nonvacuous. Qed.
 Print Assumptions C11_nonvacuous.
